@@ -25,7 +25,10 @@ def base_models():
     needb = {"vars": [{"lb": None, "ub": None}, {"lb": None, "ub": None}, {"lb": 0, "ub": 1, "int": True}],
              "cons": [{"lb": 1, "ub": None, "lin": [[0, 1], [1, 1]]}],
              "lcons": [O(20, O(28, V(0), N(2)), O(23, V(1), N(-1)))], "objs": [{"max": False, "lin": [[0, 1], [1, 1]]}]}
-    return {"ok_lp": lp, "ok_logic": logic, "infeas": infeas, "unsupported": unsup, "needbounds": needb}
+    nested = dict(logic, lcons=logic["lcons"] + [O(21, O(24, V(2), N(1)), O(34, O(24, V(2), N(1))))])
+    noobj = dict(lp, objs=[])
+    return {"ok_lp": lp, "ok_logic": logic, "infeas": infeas, "unsupported": unsup, "needbounds": needb,
+            "infeas_nested": nested, "ok_noobj": noobj}
 
 
 def nl_text(m, tmp):
@@ -59,7 +62,10 @@ def concretise(s, models, texts, bigm_opts, rnd):
     if mk == "needbounds":
         c["opts"] += bigm_opts
     c["opts"] += {"none": [], "valid": ["tech:idummy=3"], "unknown": [rnd.choice(["foo=1", "tech:nosuchopt=2", "acc:nothing=0"])],
-                  "illtyped": [rnd.choice(["tech:idummy=abc", "objno=x1", "tech:ddummy=1e"])], "objno_range": ["objno=7"]}[s["opt"]]
+                  "illtyped": [rnd.choice(["tech:idummy=abc", "objno=x1", "tech:ddummy=1e"])], "objno_range": ["objno=7"],
+                  "solcount": ["sol:count=1"], "optfile_self": ["tech:optionfile=self.opt"], "optfile_missing": ["tech:optionfile=nosuchfile.opt"]}[s["opt"]]
+    if s["opt"] == "optfile_self":
+        c["extra_files"] = {"self.opt": "tech:idummy=3\ntech:optionfile=self.opt\n"}
     nv, nc, no = len(m["vars"]), len(m.get("cons", [])), len(m.get("objs", []))
     if s["names"] != "absent":
         c["opts"].append("cvt:names=3")
@@ -68,9 +74,13 @@ def concretise(s, models, texts, bigm_opts, rnd):
         rows = ["c%d" % i for i in range(nc)] + ["o%d" % i for i in range(no)]
         if s["names"] == "short":
             cols, rows = cols[:1], rows[:1]
+        if s["names"] == "emptyfirst":
+            cols, rows = [""] + cols, [""] + rows
         c["files"] = {".col": "".join(n + eol for n in cols), ".row": "".join(n + eol for n in rows)}
     if s["out"] == "blocked":
         c["mk_sol_dir"] = True
+    if s["out"] == "full":
+        c["sol_symlink"] = "/dev/full"
     c["dims"] = (nv, nc)
     return c
 
@@ -81,8 +91,8 @@ def run(tier):
     mc = tlc("MCDriver", "MCDriver.cfg", cwd=sd, workers=NPROC)
     tlc_must_pass(mc, "MCDriver")
     scen = printed_json(mc, "CASE")
-    if len(scen) != 1320:
-        raise Broken("expected 1320 scenarios, got %d" % len(scen))
+    if len(scen) != 3342:
+        raise Broken("expected 3342 scenarios, got %d" % len(scen))
     scen.sort(key=lambda s: json.dumps(s, sort_keys=True))
     exe = targets.get("h_drv")
     cfgs, acc = cvtcases.configs(exe)
